@@ -87,9 +87,11 @@ func (s *serviceImpl) Add(obj Actor) (index uint32, err error) {
 	// assign the first object to the index 0. following objects will
 	// be assigned random values.
 	s.Lock()
-	if _, ok := s.objects[1]; ok {
+	_, hasOne := s.objects[1]
+	_, hasZero := s.objects[0]
+	if hasOne || hasZero {
 		index = (rand.Uint32() << 1) >> 1
-		if _, ok = s.objects[index]; ok {
+		if _, ok := s.objects[index]; ok {
 			s.Unlock()
 			return s.Add(obj)
 		}
